@@ -126,6 +126,38 @@ def klass_of(spec, a):
     return "signs=" + "".join("-" if x < 0 else "0" if x == 0 else "+" for x in a[:6])
 
 
+ZERO_OK = ("I", "N", "Is", "i32", "u32", "i64", "u64", "i16", "u16", "u8")
+
+
+def inject_trivial(rng, ks, a):
+    """every overload has its own zero / sign dispatch: about a quarter of the cases of EVERY call form get a 0, 1 or -1 operand
+    (each operand position in turn, also two zeros at once), which is what an early-out or a swapped shortcut needs to show"""
+    r = rng.below(16)
+    if r >= 5:
+        return a
+    idx = [i for i, k in enumerate(ks) if k in ZERO_OK]
+    if not idx:
+        return a
+    i = rng.choice(idx)
+    if r <= 2:
+        a[i] = 0
+        if r == 2 and len(idx) > 1:
+            a[rng.choice(idx)] = 0
+    elif r == 3:
+        a[i] = 1
+    else:
+        a[i] = -1 if ks[i] in ("I", "Is", "i32", "i64", "i16") else 1
+    return a
+
+
+def limb_boundary(rng, signed=True):
+    """a value next to a limb-count boundary: +-(2^(64k) + d), k = 0..3, small d"""
+    k = rng.choice([0, 1, 1, 2, 3])
+    v = (1 << (64 * k)) + rng.choice([-2, -1, 0, 1, 2]) if k else rng.choice([0, 1, 2, 3, 2**31, 2**32, 2**63 - 1, 2**63])
+    v = max(v, 0)
+    return -v if signed and rng.chance(1, 2) else v
+
+
 def kinds(spec, a):
     """argument kinds of a concrete case (a generated limb list is a list of u64 words)"""
     return ["u64"] * len(a) if "gen" in spec else spec["args"]
@@ -135,6 +167,8 @@ def gen_cases(rng, v, spec, n):
     out = []
     for i in range(n):
         a = spec["gen"](rng) if "gen" in spec else [gen_arg(rng, k) for k in spec["args"]]
+        if "gen" not in spec:
+            a = inject_trivial(rng, spec["args"], a)
         if "fix" in spec:
             a = spec["fix"](rng, a)
             if a is None:
